@@ -12,43 +12,43 @@ BUILT = {
    "For generated texts (clean, dirty, arbitrary unicode) and thresholds: tokenizer concatenation is lossless, rewrite == our splice of the reported occurrences, no occurrence => identical output, numberless-by-construction texts unchanged; on id-recording token streams with hints each token is kept or handed exactly once, in order, to the one occurrence covering it, whether the replacement constructor reads none, one or all of the tokens it is handed; a whole-run procedure repeats the splice clause on long documents (up to 2^16 tokens quick, 2^20 thorough). 2M cases quick, 25M thorough + libFuzzer target text_api (thorough).",
    "Clause 2 compares two routes through the library; splice, concat and id accounting are ours. Uses the verif-hooks tokenizer re-export.", "§3 C02"),
  "C03": B("property-based fuzzing of every entry point under catch_unwind + exhaustive tiny strings",
-   "Every public entry point is called on arbitrary UTF-8 (any::<String>, \\PC*, hostile fragment pool, dirty sentences, long repeated texts), all languages, thresholds incl. NaN/inf; a panic is a violation; text2digits must answer Err for texts without words. All strings of length <= 3 over a 9-char alphabet are enumerated. 29 very long inputs (4*10^5 / 2*10^6 repetitions) run in a child process on a default 2 MiB stack: the child dying is a violation attributed to the running input. Non-termination shows as a time cap expiring (exit 2). libFuzzer target text_api in the thorough tier.",
+   "Every public entry point is called on arbitrary UTF-8 (any::<String>, \\PC*, hostile fragment pool, dirty sentences, long repeated texts), all languages, thresholds incl. NaN/inf; a panic is a violation; text2digits must answer Err for texts without words. Also driven: own-token streams whose lowercase form is normalised (possibly empty), a lazy search over a practically endless stream, exec_group on raw word groups, texts of an exact byte length of 2^k-4..2^k+1 padded with characters whose case mapping grows. All strings of length <= 3 over a 9-char alphabet are enumerated. 29 very long inputs (4*10^5 / 2*10^6 repetitions) run in a child process on a default 2 MiB stack: the child dying is a violation attributed to the running input. Non-termination shows as a time cap expiring (exit 2). libFuzzer target text_api in the thorough tier.",
    "Debug assertions and overflow checks are ON in the harness profile so arithmetic underflow traps. Stack overflow / abort would kill the process (exit != 0,1 => inconclusive).", "§3 C03"),
  "C04": B("property-based testing against a reference ordinal speller + enumeration of all ranks <= 3000 x inflections",
    "Ordinal speller renders rank n with inflection and stem variant; text2digits and the scanner must give decimal(n)+marker, flagged ordinal, value n. Quick: every rank <= 3000 (es/pt 1999) x every inflection + 2M generated; thorough: every rank to 10^6 + 25M. Every ordinal vocabulary entry occurs in the enumerated part, so a misspelt table entry is hit deterministically.",
    SPELL_NOTE, "§3 C04"),
  "C05": B("property-based testing against reference spellers (decimal phrases) + enumeration of all fractions of <= 3 digits",
-   "int SEP fraction phrases must become one numeral 'n MARK d' with value bit-equal to n.d at thresholds 0/10/inf; separator with no number before it / nothing usable after it stays a word (three negative shapes). Enumerated: all d of length <= 3 x 5 integers x 7 languages; generated 2M quick / 25M thorough.",
+   "int SEP fraction phrases must become one numeral 'n MARK d' with value bit-equal to n.d at thresholds 0/10/inf; separator with no number before it / nothing usable after it stays a word (three negative shapes); integer parts of 16+ digits built with the top scale words. Enumerated: all d of length <= 3 x 5 integers x 7 languages; generated 2M quick / 25M thorough.",
    SPELL_NOTE, "§3 C05"),
  "C06": B("property-based testing with a validity predicate over all reported occurrences",
-   "For generated token streams (pipeline tokens and own tokens with hints, biased to ordinal+separator+digit shapes): spans inside the stream, increasing, disjoint, on word tokens, no flagged token inside; text is a well-formed numeral of the language; value bit-equal to its reading; ordinal flag <=> marker; the digits of a non-decimal occurrence equal the rendering of the digit builder exec_group returns for its words (exact digits beyond 2^53). 4M quick / 40M thorough + libFuzzer (thorough).",
+   "For generated token streams (pipeline tokens and own tokens with hints, biased to ordinal+separator+digit shapes): spans inside the stream, increasing, disjoint, on word tokens, no flagged token inside; text is a well-formed numeral of the language; value bit-equal to its reading; ordinal flag <=> marker; the digits of a non-decimal occurrence equal the rendering of the digit builder exec_group returns for its words (exact digits beyond 2^53). One case in 25 is an English / German decimal of 35-56 dictated digits whose exact value is the midpoint between two adjacent doubles (optionally one digit longer / shorter), so a value computed from a shortened form shows. 4M quick / 40M thorough + libFuzzer (thorough).",
    "Marker sets per language are those the library emits today (listed in the evidence assumptions).", "§3 C06"),
  "C07": B("differential property-based testing (scanner vs validator)",
-   "For generated texts: each non-decimal occurrence's words validate to the same digits; every validated run of <= 6 words is seen by the scanner as exactly one number with those digits; at threshold 0 no uncovered, unflagged word validates alone; clauses 1 and 3 also on own-token streams with separation / not-a-number hints. 2M quick / 25M thorough + libFuzzer (thorough).",
+   "For generated texts: each non-decimal occurrence's words validate to the same digits; every validated run of <= 6 words is seen by the scanner as exactly one number with those digits; at threshold 0 no uncovered, unflagged word validates alone; every raw segment between two ordinary words (punctuation included) that the validator accepts is seen by the un-annotated scanner as exactly that one number; clauses 1 and 3 also on own-token streams with separation / not-a-number hints. 2M quick / 25M thorough + libFuzzer (thorough).",
    "Both sides are the library, as the property states; word extraction and run enumeration are ours.", "§3 C07"),
  "C08": B("exhaustive enumeration of all pairs below 100 + property-based variants, reverse-speller oracle; exact dictation oracle",
-   "All 99x100x2 (a,b,joiner) per language with canonical spellings and every spelling variant of both sides for bare tens x b<20 are enumerated in every tier, random variants generated; each occurrence's covered words must be a standard spelling (reverse table of all variants of n < 1000) of its numeral and every word must be covered. Ordinal pairs with independent inflections are checked against a reverse table of all ordinal spellings (components that disagree in gender/number must not fuse). Dictation: all digit strings of length <= 4 enumerated, 5..8 generated (zero-run biased), exact expected grouping.",
+   "All 99x100x2 (a,b,joiner) per language with canonical spellings and every spelling variant of both sides for bare tens x b<20 are enumerated in every tier, random variants generated; each occurrence's covered words must be a standard spelling (reverse table of all variants of n < 1000) of its numeral and every word must be covered. Ordinal pairs with independent inflections are checked against a reverse table of all ordinal spellings (components that disagree in gender/number must not fuse); cardinal + ordinal pairs below 100 (all enumerated in two inflection choices) against the same table ('ten first' is not 11st). Dictation: all digit strings of length <= 4 enumerated, 5..8 generated (zero-run biased), exact expected grouping.",
    SPELL_NOTE + " 'Both numbers or the single number spelled by exactly those words' is checked as any segmentation into standard spellings (needed for fr 'vingt quatre vingt deux').", "§3 C08"),
  "C09": B("model-based + metamorphic property-based testing of the lone-number policy",
-   "On clean tagged streams with two thresholds (pool incl. NaN/inf and exact values of the text's numbers +-1): sub-list/monotonicity relations, t<=0/NaN rewrites all, non-small numbers always rewritten, and an independent policy model decides every small number whose gaps are decidable; the same verdicts on caller-built streams with flagged gap tokens; fixed relations enumerated (digit triples always rewritten, lone digit hidden iff value < t, gaps of 1..257 ignorable tokens, every linking word x 12 near-miss derivations). 3M quick / 30M thorough.",
+   "On clean tagged streams with two thresholds (pool incl. NaN/inf and exact values of the text's numbers +-1): sub-list/monotonicity relations, t<=0/NaN rewrites all, non-small numbers always rewritten, and an independent policy model decides every small number whose gaps are decidable; the same verdicts on caller-built streams with flagged gap tokens; fixed relations enumerated (digit triples always rewritten, lone digit hidden iff value < t, gaps of 1..257 ignorable tokens, every linking word x 12 near-miss derivations, every single-word literal of the tree's language modules that is neither number nor linking word placed between two numbers). 3M quick / 30M thorough.",
    "The model abstains (counted) where the statement does not decide (conjunction/separator word or stray number-like word in the gap). Linking vocabulary copied from the library's published lists.", "§3 C09, §2.3"),
  "C10": B("metamorphic property-based testing (A S B == A ++ S ++ B; punctuation separates)",
-   "rewrite(A S B,t) == rewrite(A,t) S rewrite(B,t) for generated A, B (with the French determiner+neuf shapes, English o, dangling conjunction/separator) and a strong separator of 3-4 ordinary words + period; spell(a) p spell(b) -> a p b for 16 punctuation separators (incl. typographic quotes); whole-run procedure: a prefix of W ordinary words (2W tokens just above 2^10..2^16, thorough 2^20) never changes how a tail with punctuation-linked small numbers is rewritten. 2M quick / 25M thorough.",
+   "rewrite(A S B,t) == rewrite(A,t) S rewrite(B,t) for generated A, B (with the French determiner+neuf shapes, English o, dangling conjunction/separator) and a strong separator of 3-4 ordinary words + period; spell(a) p spell(b) -> a p b for 16 punctuation separators (incl. typographic quotes) and, enumerated, every punctuation mark / symbol of the common Unicode blocks (1699 characters) glued or spaced between three number pairs in seven languages; whole-run procedure: a prefix of W ordinary words (2W tokens just above 2^10..2^16, thorough 2^20) never changes how a tail with punctuation-linked small numbers is rewritten. 2M quick / 25M thorough.",
    "Separator words exclude the French determiners un/le/du/l'/numéro that act at distance <= 3 by documented design.", "§3 C10"),
  "C11": B("metamorphic property-based testing (recasing)",
    "Occurrences, validation result and untouched words are compared between a text and its recasing (upper, lower, capitalised, per-char mask) restricted to reversible one-to-one case mappings. 2M quick / 25M thorough.",
    "Cases where lower(r(s)) != lower(s) are discarded and counted (property precondition).", "§3 C11"),
  "C12": B("model-based property testing (proptest op sequences vs reference model) + exhaustive short traces",
-   "Generated operation traces (400k quick / 12M thorough, length 1..40, arguments up to 40 digits, 1 in 200 with extreme arguments: 250..700 leading zeros, positions/shifts around 2^16 and up to 70 000) and every trace of length <= 3 (quick) / <= 4 (thorough) over a 19-op alphabet are run against an independent reference model of the builder; all queries compared after every step, plus the statement's direct invariants.",
+   "Generated operation traces (400k quick / 12M thorough, length 1..40, arguments up to 40 digits and one in 22 of 41..140 digits, 1 in 200 with extreme arguments: 250..700 leading zeros, positions/shifts around 2^16 and up to 70 000) and every trace of length <= 3 (quick) / <= 4 (thorough) over a 19-op alphabet are run against an independent reference model of the builder; all queries compared after every step, plus the statement's direct invariants.",
    "Trusted: the reference model (src/model/digit.rs, from the doc comments). push is exempt from the frozen clause, fput from digit preservation (documented). is_range_free only with a<b.", "§3 C12, §2.2"),
  "C13": B("differential property-based testing (facade vs concrete type) + 7x7 ISO lookup table",
    "Every API function and trait method (incl. per-word apply/apply_decimal with builder observation and basic_annotate flags) must agree between Language::x() and X::new() on generated inputs; the annotation pass is also compared on pre-flagged caller tokens; get_interpreter_for resolves each code to the matching variant, reads its own language, and rejects generated non-codes (digits, gibberish, language names, byte-truncation / full-width look-alikes of the codes). 600k quick / 8M thorough.",
    "Two-letter alphabetic strings and code+region forms are not judged (statement does not pronounce on them).", "§3 C13"),
  "C14": B("stateful property-based testing (call histories vs fresh interpreter) + 16-thread stress + compile-time Send/Sync check + child-process silence check",
-   "Generated histories (30k quick / 400k thorough, up to 300 calls over 8 public functions and 7 languages) on one shared interpreter set must equal fresh-interpreter results; 16 threads sharing one interpreter replay 20k-100k generated calls; cold-start rounds (8 threads released by a barrier make the first calls on a freshly built interpreter) and hot loops (16 threads x 8 long compounds per language); a separate crate asserts Send+Sync+'static; a child process runs a workload covering every vocabulary arm (plus numerals beyond 2^53) with stdout/stderr piped and both must stay empty (a violation is bisected to one workload item).",
+   "Generated histories (30k quick / 400k thorough, up to 300 calls over 8 public functions and 7 languages) on one shared interpreter set must equal fresh-interpreter results; 16 threads sharing one interpreter replay 20k-100k generated calls; cold-start rounds (8 threads released by a barrier make the first calls on a freshly built interpreter) and hot loops (16 threads x 8 long compounds per language); a battery of ordinary calls is repeated after ~130 caught panics of a user-supplied interpreter inside every entry point (same and fresh interpreters must answer as before); histories include a panicking user interpreter and references are computed in a fixed order; a separate crate asserts Send+Sync+'static; a child process runs a workload covering every vocabulary arm (plus numerals beyond 2^53) with stdout/stderr piped and both must stay empty (a violation is bisected to one workload item).",
    "Thread interleavings are stressed on the real scheduler, not enumerated or controlled (sound today: no interior mutability; the type check and history test guard that).", "§3 C14"),
  "C15": B("property-based testing of the token-stream contract (counting iterator adaptor; hint == comma metamorphic relation)",
-   "Own-token streams with hints (forced inside numbers in half of the cases, long repeated streams, hyphens as separate tokens): lazy == batch through next / fold / for_each / count / last / nth, honest size_hint, ends cleanly, consumes nothing before the first request and never beyond the second number after the one returned; separated hint (carried as a flag on the token or as a pause on its predecessor read through `previous`) keeps tokens apart and is equivalent to an inserted comma; flagged tokens are in no occurrence. 1.5M quick / 20M thorough.",
+   "Own-token streams with hints (forced inside numbers in half of the cases, long repeated streams, hyphens as separate tokens): lazy == batch through next / fold / for_each / count / last / nth / skip (also beyond the end) / step_by / peekable / two alternately advanced searches, honest size_hint (also over inputs whose own size_hint is (0, Some(usize::MAX)) or (0, None)), ends cleanly, consumes nothing before the first request and never beyond the second number after the one returned; separated hint (carried as a flag on the token or as a pause on its predecessor read through `previous`) keeps tokens apart and is equivalent to an inserted comma; flagged tokens are in no occurrence. 1.5M quick / 20M thorough.",
    "Hints only on tokens the scanner examines (not whitespace / bare '-').", "§3 C15"),
  "C16": B("property-based testing against a reference speller + enumeration (k zeros x all n < 2000)",
    "k zero words + spell(n) must validate and rewrite to '0'^k n as one occurrence with value n; spell(n) zero -> 'n 0'; lone zero -> 0. Enumerated k<=6 x every n<2000 and g*1000^j; 3M generated quick / 30M thorough.",
